@@ -234,7 +234,9 @@ def rebuild_with_model(box, metafiles, sdirs, dest, drv, case):
     with quiet():
         asm = Assembler(list(metafiles), list(sdirs), dest)
     raised = None
+    index_model(drv, asm, sdirs, case)
     for meta in asm.metafiles:
+        extract_model(drv, meta, case)
         ds = os.path.getsize(box)
         fstok = fs_tokens(box)
         before = asm.counter
@@ -266,10 +268,77 @@ def rebuild_with_model(box, metafiles, sdirs, dest, drv, case):
     return asm.counter, raised
 
 
+def index_model(drv, asm, sdirs, case):
+    """_index_contents vs Impl.indexContents: file name -> [(path, size)] in enumeration order
+    (the search trees are handed over in the order os.listdir reports them)."""
+    names = set()
+    for meta in asm.metafiles:
+        names |= set(meta.filenames)
+
+    def stree(path):
+        if os.path.isfile(path):
+            return ["f", str(os.path.getsize(path))]
+        entries = os.listdir(path)
+        toks = ["d", str(len(entries))]
+        for e in entries:
+            toks += [_hx(e)] + stree(os.path.join(path, e))
+        return toks
+    names = sorted(names)
+    req = f"index {len(names)} " + " ".join(_hx(n) for n in names) + f" {len(sdirs)} " + \
+        " ".join(_hx(d) + " " + " ".join(stree(d)) for d in sdirs)
+    got = ";".join(f"{_hx(k)}=" + ",".join(f"{_hx(p)}:{s}" for p, s in v) for k, v in asm.filemap.items())
+    drv.ask(req, ("match-extract", dict(case, what="filemap"), got or "-"))
+
+
+def extract_model(drv, meta, case):
+    """Metadata.extract / _parse_tree vs Impl.extractV1* / extractV2: the file records
+    (full path, file name, length, root / padding flag) derived from the metafile."""
+    from harness import refspec
+    raw = open(meta.path, "rb").read()
+    info = refspec.lenient_decode(raw)[b"info"]
+    name = info[b"name"]
+    got = []
+    for f in meta.files:
+        tok = f"{_hx(str(f['full']))}:{_hx(f['filename'])}:{f['length']}"
+        if meta.meta_version == 2:
+            tok += ":" + (_hx(f["root"]) if f.get("root") is not None else "none")
+        elif f.get("pad"):
+            tok += ":p"
+        got.append(tok)
+    if meta.meta_version == 2:
+        def tree_tokens(tree):
+            toks = [str(len(tree))]
+            for k, v in tree.items():
+                toks.append(_hx(k))
+                if b"" in v:
+                    leaf = v[b""]
+                    root = leaf.get(b"pieces root")
+                    toks += ["f", str(leaf[b"length"]), _hx(root) if root is not None else "none"]
+                else:
+                    toks += ["d"] + tree_tokens(v)
+            return toks
+        req = f"extractv2 {_hx(name)} " + " ".join(tree_tokens(info[b"file tree"]))
+    elif b"files" in info:
+        toks = []
+        for e in info[b"files"]:
+            toks += [str(len(e[b"path"]))] + [_hx(c) for c in e[b"path"]] + \
+                [("p" if e.get(b"attr") == b"p" else "") + str(e[b"length"])]
+        req = f"extractv1 {_hx(name)} {len(info[b'files'])} " + " ".join(toks)
+    else:
+        req = f"extractv1s {_hx(name)} {info[b'length']}"
+    drv.ask(req, ("match-extract", dict(case, metafile=os.path.basename(meta.path)), ",".join(got)))
+
+
 def settle_match(run, answers):
     from harness.common import MachineryError
     rest = []
     for slot, req, out in answers:
+        if isinstance(slot, tuple) and slot and slot[0] == "match-extract":
+            run.model_checked += 1
+            if out.strip() != (slot[2] or "-") and out.strip() != slot[2]:
+                run.fail("impl-vs-model", slot[1], {"correspondence": "Impl.extractV1/V2 (file records)",
+                                                    "model": out[:200], "impl": slot[2][:200]})
+            continue
         if not (isinstance(slot, tuple) and slot and slot[0] == "match"):
             rest.append((slot, req, out))
             continue
